@@ -153,6 +153,8 @@ def layout(k: Kind):
 
 
 def elem_sort(k: Kind) -> str:
+    if isinstance(k, KOpt) and k.inner is K_BYTES:
+        return SEQI          # Optional bytes as a dict key (None encoded as [-1])
     lay = layout(k)
     if len(lay) != 1:
         raise ValueError(f"container element kind {k!r} needs a single-component layout")
